@@ -243,10 +243,10 @@ def make(interp):
         sh = tuple(interp.binop("Add", interp.binop("Add", lo, d), hi) for (lo, hi), d in zip(pw, a.shape))
         def get(idx):
             inside = z3.And(*[z3.And(toz3(i) >= toz3(lo), toz3(i) < toz3(interp.binop("Add", lo, d))) for i, (lo, hi), d in zip(idx, pw, a.shape)])
-            inner = a.get(tuple(interp.binop("Sub", i, lo) for i, (lo, hi) in zip(idx, pw)))
             cb = concrete_bool(z3.simplify(inside))
-            if cb is True: return inner
             if cb is False: return constant_values
+            inner = a.get(tuple(interp.binop("Sub", i, lo) for i, (lo, hi) in zip(idx, pw)))
+            if cb is True: return inner
             return A.Ite(inside, inner, constant_values)
         return SArr(sh, get)
     def argmin(a, axis=None):
